@@ -277,8 +277,12 @@ def _contract_job(state, job):
                 wit.bad("K2", f"{where}: mode {mode} and blockwise return different indices: "
                               f"{[ (dict(d[0]), d[1], d[2] is not None) for d in map(ixdesc, r.fields['_indices'])]} vs "
                               f"{[ (dict(d[0]), d[1], d[2] is not None) for d in map(ixdesc, rb.fields['_indices'])]}")
-            if {s: b.shape for s, b in r.fields["_blocks"].items()} != {s: b.shape for s, b in rb.fields["_blocks"].items()}:
-                wit.bad("K2", f"{where}: mode {mode} and blockwise return different sectors / block shapes")
+            def nonzero(arr):
+                # an explicitly stored zero block and a missing block mean the same array
+                return {s: b.shape for s, b in arr.fields["_blocks"].items() if _terms(b.term)}
+
+            if nonzero(r) != nonzero(rb):
+                wit.bad("K2", f"{where}: mode {mode} and blockwise return different non-zero sectors / block shapes")
             if fm and g is not None and gb is not None and g != gb:
                 wit.tick("K3")
                 wit.bad("K3", f"{where}: mode {mode} and blockwise disagree on the sign of a pair product")
